@@ -31,6 +31,11 @@ def run(cmd, cwd=None, timeout=None, mem_gb=None, env=None, stdin=None):
 
         def pre():
             resource.setrlimit(resource.RLIMIT_AS, (lim, lim))
+            # CBMC recurses deeply over long expression chains
+            try:
+                resource.setrlimit(resource.RLIMIT_STACK, (resource.RLIM_INFINITY, resource.RLIM_INFINITY))
+            except (ValueError, OSError):
+                pass
     t0 = time.time()
     try:
         p = subprocess.run(cmd, cwd=cwd, timeout=timeout, env=env,
@@ -308,6 +313,35 @@ def run_job(scr, job, small=False, trace_prop=None, timeout=None):
         rc, so, se, _, _ = run(cmd, cwd=wd)
         _must(rc, "goto-cc", so, se)
         cur = a_gb
+        # callees (static, same translation unit) that this job verifies the
+        # caller against by contract: calls are redirected to the contract
+        # stub the harness defines (goto-instrument --replace-calls)
+        if job.get("replace_calls"):
+            r0 = os.path.join(wd, "a0.gb")
+            cmd = ["goto-instrument"]
+            for pair in job["replace_calls"]:
+                cmd += ["--replace-calls", pair]
+            cmd += [cur, r0]
+            res.cmds.append(" ".join(cmd))
+            rc, so, se, _, _ = run(cmd, cwd=wd)
+            _must(rc, "goto-instrument --replace-calls", so, se)
+            cur = r0
+        # callees inside the same translation unit that this job verifies the
+        # caller against by contract: drop the real body, link the contract stub
+        if job.get("restub"):
+            r1 = os.path.join(wd, "a1.gb")
+            cmd = ["goto-instrument"]
+            for f in job["restub"]["remove"]:
+                cmd += ["--remove-function-body", f]
+            cmd += [cur, r1]
+            rc, so, se, _, _ = run(cmd, cwd=wd)
+            _must(rc, "goto-instrument --remove-function-body", so, se)
+            r2 = os.path.join(wd, "a2.gb")
+            cmd = cc + ["--function", entry, r1] + \
+                [os.path.join(VERIF, x) for x in job["restub"]["src"]] + ["-o", r2]
+            rc, so, se, _, _ = run(cmd, cwd=wd)
+            _must(rc, "goto-cc (contract stubs)", so, se)
+            cur = r2
 
         # loop contracts
         rc, so, se, _, _ = run(["goto-instrument", "--show-loops", cur], cwd=wd)
@@ -370,9 +404,18 @@ def run_job(scr, job, small=False, trace_prop=None, timeout=None):
         uws = []
         for l in remaining:
             # trace-window loops of the harness helper layer (XV_WIN iterations)
-            if "XV_IN_BYTES" in _srcline(l.get("file", ""), l.get("line", 0)):
+            line = _srcline(l.get("file", ""), l.get("line", 0))
+            if "XV_IN_BYTES" in line:
                 uws.append("%s.%d:%d" % (l["function"], l["id"], job.get("win", 96) + 2))
                 continue
+            # a loop of /verif's own code may state its constant bound on its line
+            m = re.search(r"XV_UNWIND[ (]+([A-Za-z0-9_]+)", line)
+            if m:
+                n = m.group(1)
+                n = int(n) if n.isdigit() else int(job.get("bounds", {}).get(n, 0))
+                if n:
+                    uws.append("%s.%d:%d" % (l["function"], l["id"], n + 2))
+                    continue
             for pat, n in job.get("unwind_by_func", {}).items():
                 if re.search(pat, l["function"]):
                     uws.append("%s.%d:%d" % (l["function"], l["id"], n))
@@ -470,10 +513,12 @@ def expand_cases(job):
     if not job.get("cases"):
         return [job]
     subs = []
-    for label, cond in job["cases"]:
+    for case in job["cases"]:
+        label, cond = case[0], case[1]
         sj = dict(job)
         sj["name"] = "%s#%s" % (job["name"], label)
-        sj["defs"] = list(job.get("defs", [])) + ["XV_CASE_COND=(%s)" % cond]
+        sj["defs"] = list(job.get("defs", [])) + (["XV_CASE_COND=(%s)" % cond] if cond else []) \
+            + (list(case[2]) if len(case) > 2 else [])
         sj["_parent"] = job["name"]
         sj.pop("cases")
         subs.append(sj)
@@ -552,7 +597,7 @@ def run_jobs(scr, jobs, small=False):
     final = {}
     for name, pj in parents.items():
         if pj.get("cases"):
-            subs = [results["%s#%s" % (name, lab)] for lab, _ in pj["cases"]]
+            subs = [results["%s#%s" % (name, c[0])] for c in pj["cases"]]
             final[name] = merge_cases(pj, subs)
         else:
             final[name] = results[name]
